@@ -217,6 +217,39 @@ def trees(depth):
     return out
 
 
+EXTENDING = [
+    ('for x in a return (x in b)', 'for x in a return x in b'),
+    ('for x in a return (x + b)', 'for x in a return x + b'),
+    ('for x in a return (x or b)', 'for x in a return x or b'),
+    ('for x in a return ((x + b) in c)', 'for x in a return x + b in c'),
+    ('for x in a, y in b return (x + y)', 'for x in a, y in b return x + y'),
+    ('for x in a return (for y in b return (x + y))', 'for x in a return for y in b return x + y'),
+    ('for x in [a, b] return (x in c)', 'for x in [a, b] return x in c'),
+    ('for x in a .. b return (x in c)', 'for x in a .. b return x in c'),
+    ('some x in a satisfies (x in b)', 'some x in a satisfies x in b'),
+    ('some x in a satisfies ((x = b) or c)', 'some x in a satisfies x = b or c'),
+    ('some x in a, y in b satisfies (x = y)', 'some x in a, y in b satisfies x = y'),
+    ('every x in a satisfies ((x + c) in b)', 'every x in a satisfies x + c in b'),
+    ('every x in a satisfies ((x > b) and (x < c))', 'every x in a satisfies x > b and x < c'),
+    ('every x in a satisfies (some y in b satisfies (x = y))', 'every x in a satisfies some y in b satisfies x = y'),
+    ('if a then b else (c + d)', 'if a then b else c + d'),
+    ('if a then b else (c or d)', 'if a then b else c or d'),
+    ('if (a in b) then c else d', 'if a in b then c else d'),
+    ('if ((a > b) and (c < d)) then x else y', 'if a > b and c < d then x else y'),
+    ('if a then (b + c) else d', 'if a then b + c else d'),
+    ('if a then b else (if c then d else x)', 'if a then b else if c then d else x'),
+    ('if a then (if b then c else d) else x', 'if a then if b then c else d else x'),
+    ('if a then b else (for x in c return (x + d))', 'if a then b else for x in c return x + d'),
+    ('function(x) (x + a)', 'function(x) x + a'),
+    ('function(x, y) ((x + y) in a)', 'function(x, y) x + y in a'),
+    ('function(x) (if x then a else b)', 'function(x) if x then a else b'),
+    ('(a instance of number) and b', 'a instance of number and b'),
+    ('a or ((b instance of number) and c)', 'a or b instance of number and c'),
+    ('(for x in a return x)[b]', '(for x in a return x)[b]'),
+    ('(if a then b else c) + d', '(if a then b else c) + d'),
+]
+
+
 def main():
     depth = 3
     if '--depth' in sys.argv:
@@ -232,6 +265,11 @@ def main():
         for pth in needed:
             dropped, _ = render(t, 'min', drop=pth)
             plan.append((i, 'drop', dropped))
+    # the constructs that are not operators of the precedence table - if, for, some, every, function - extend as far to the right as
+    # possible: (fully parenthesised, minimal) pairs written out by hand from grammar rules of DMN 1.3 section 10.3.1.2
+    for (full, mn) in EXTENDING:
+        plan.append((-1, 'full', full))
+        plan.append((-1, 'min', mn))
     with tempfile.NamedTemporaryFile('w', suffix='.txt', delete=False, dir='/var/tmp') as fh:
         for (_, _, text) in plan:
             fh.write(text + '\n')
